@@ -671,8 +671,8 @@ Proof.
   rewrite (enc_pos_rel c fp fp' (genc_of c groups) (genc_of c groups') (present_in (mb_fp t0)) Hfp) with (b := bb) (p1 := pos).
   - exact H.
   - intros f Hf. rewrite Hnp in Hf. discriminate.
-  - intros f r Hgi _ Hm. apply Hg; [exact Hgi|apply Hnp|exact Hm].
   - exact Hpos.
+  - intros f r _ Hgi _ Hm. apply Hg; [exact Hgi|apply Hnp|exact Hm].
   - exact E.
 Qed.
 
